@@ -33,6 +33,7 @@ T2 == << "return", "not", "a", "==", "b", ",", "a", "and", "b", "or", "c", ",", 
 T3 == << "local", "x", "=", "1", "x", "+=", "1", "x", "..=", "'s'",
          "for", "i", "=", "1", ",", "2", "do", "if", "x", "then", "continue", "end", "end",
          "local", "s", "=", "`a{", "x", "}b`",
+         "local", "u", "=", "`{", "{", "x", "}", "}`",       \* a value that starts with a table: `{{` is not allowed
          "local", "y", "=", "if", "x", "then", "1", "elseif", "s", "then", "2", "else", "3",
          "return", "x", "//", "0b11", ",", "1_000" >>
 \* T4: separators after LAST statements (`return 1;`, `break;`), operands touching `..`, nested closing brackets
